@@ -7,7 +7,7 @@ from . import coqio as cq
 from . import gen
 from .impl import GMMStats, em, hexlist, make_gmm
 
-IMPORTS = "Lib.LinAlg Model.FA Model.LinScore Corr.CorrBase Corr.CorrLinScore Corr.CorrFA"
+IMPORTS = "Lib.LinAlg Model.FA Model.LinScore Model.FAScore Corr.CorrBase Corr.CorrFA"
 ISVMachine, JFAMachine = em.ISVMachine, em.JFAMachine
 
 
